@@ -1094,8 +1094,78 @@ def run_metric_case(ctx, idx, kind, sid, comp):
 # ---------------------------------------------------------------------------------------------
 
 
+def run_halfprec_case(ctx, i):
+  """All three wrappers on half-precision parameters with transformations whose updates / state are wider than the
+  parameters (adam mu_dtype=float32, momentum accumulator float32, float32 gradients): params, dtypes and optimizer state must
+  equal the hand-written tx.update + optax.apply_updates loop bit for bit."""
+  import jax
+  import jax.numpy as jnp
+  import optax
+  from flax import nnx
+  from flax.training import train_state
+  rng = ctx.rng('halfprec', i)
+  nprng = np.random.default_rng(rng.getrandbits(32))
+  pdt = [jnp.bfloat16, jnp.float16, jnp.float32][i % 3]
+  gdt = rng.choice([pdt, jnp.float32])
+  tx_name = ['adam_mu_f32', 'momentum_acc_f32', 'sgd', 'adamw_mu_f32', 'chain_clip_adam_f32'][i % 5]
+  wrapper = ['linen.TrainState', 'nnx.Optimizer', 'nnx.TrainState'][(i // 3) % 3]
+  steps = rng.randint(1, 3)
+
+  def mk():
+    return {'adam_mu_f32': lambda: optax.adam(1e-2, mu_dtype=jnp.float32), 'momentum_acc_f32': lambda: optax.sgd(1e-2, momentum=0.9, accumulator_dtype=jnp.float32),
+            'sgd': lambda: optax.sgd(1e-2), 'adamw_mu_f32': lambda: optax.adamw(1e-2, mu_dtype=jnp.float32),
+            'chain_clip_adam_f32': lambda: optax.chain(optax.clip_by_global_norm(1.0), optax.adam(1e-2, mu_dtype=jnp.float32))}[tx_name]()
+
+  desc = dict(wrapper=wrapper, param_dtype=str(jnp.dtype(pdt)), grad_dtype=str(jnp.dtype(gdt)), tx=tx_name, steps=steps)
+  with ctx.case('halfprec', i, desc, nontrivial=jnp.dtype(pdt) != jnp.float32):
+    params = {'dense': {'kernel': jnp.asarray(nprng.standard_normal((2, 3)), pdt), 'bias': jnp.asarray(nprng.standard_normal((3,)), pdt)}}
+    grads_seq = [jax.tree.map(lambda p: jnp.asarray(nprng.standard_normal(p.shape), gdt), params) for _ in range(steps)]
+    # reference loop
+    tx_r = mk()
+    p_r, o_r = params, tx_r.init(params)
+    for g in grads_seq:
+      u, o_r = tx_r.update(g, o_r, p_r)
+      p_r = optax.apply_updates(p_r, u)
+    if wrapper == 'linen.TrainState':
+      st = train_state.TrainState.create(apply_fn=lambda *a: None, params=params, tx=mk())
+      for g in grads_seq:
+        st = st.apply_gradients(grads=g)
+      got_p, got_o = st.params, st.opt_state
+    elif wrapper == 'nnx.TrainState':
+      class M(nnx.Module):
+        def __init__(self):
+          self.dense = nnx.Dict(kernel=nnx.Param(params['dense']['kernel']), bias=nnx.Param(params['dense']['bias']))
+      gd, pstate = nnx.split(M(), nnx.Param)
+      st = nnx.TrainState.create(gd, params=pstate, tx=mk())
+      for g in grads_seq:
+        gs = jax.tree.map(lambda x: x, pstate)
+        gs = nnx.State({'dense': {'kernel': nnx.VariableState(type=nnx.Param, value=g['dense']['kernel']), 'bias': nnx.VariableState(type=nnx.Param, value=g['dense']['bias'])}})
+        st = st.apply_gradients(grads=gs)
+      got_p = {'dense': {k: st.params['dense'][k].value for k in ('kernel', 'bias')}}
+      got_o = None
+    else:
+      class M(nnx.Module):
+        def __init__(self):
+          self.dense = nnx.Dict(kernel=nnx.Param(params['dense']['kernel']), bias=nnx.Param(params['dense']['bias']))
+      model = M()
+      opt = nnx.Optimizer(model, mk())
+      for g in grads_seq:
+        gs = nnx.State({'dense': {'kernel': nnx.VariableState(type=nnx.Param, value=g['dense']['kernel']), 'bias': nnx.VariableState(type=nnx.Param, value=g['dense']['bias'])}})
+        opt.update(gs)
+      got_p = {'dense': {k: model.dense[k].value for k in ('kernel', 'bias')}}
+      got_o = None
+    ctx.op(wrapper + '(half precision)')
+    d = snap_diff(snap(got_p), snap(p_r))
+    ctx.check(d is None, 'halfprec.params:' + wrapper, lambda: dict(case=desc, diff=d))
+    if got_o is not None:
+      d2 = snap_diff(snap(got_o), snap(o_r))
+      ctx.check(d2 is None, 'halfprec.opt_state:' + wrapper, lambda: dict(case=desc, diff=d2))
+
+
 def run(ctx):
   quick = ctx.tier == 'quick'
+  for i in ctx.indices(45 if quick else 450, 'halfprec'):
+    run_halfprec_case(ctx, i)
   n_ts = 660 if quick else 4000
   n_opt = 660 if quick else 4400
   n_nnxts = 200 if quick else 1500
